@@ -52,13 +52,15 @@ VARIABLES comp,     \* the compilation under analysis
           todo,     \* <<block, base>> pairs still to analyse; base = absolute environment depth at env_fp (-1 unknown)
           doneB,    \* pairs analysed
           cur,      \* the pair under analysis
-          work,     \* abstract states <<i, env, bind, args>> to expand (i = instruction index)
-          exc,      \* pending exceptional edges <<handler, env, bind, args, source pc>>
-          excSeen,  \* <<handler, env, bind, args>> of every edge ever queued for this block
-          seen,     \* i -> <<env, bind, args>> of the first arrival, <<>> if not reached
+          tr,       \* registers used as JumpTable index in the block under analysis (sorted)
+          rg,       \* for each of them the finally regions <<lo, hi>> (byte offsets)
+          work,     \* pending abstract states <<i, jt, env, bind, args, source pc, hd>>: i = instruction index, jt = jump-table
+                    \* context, hd[h] = <<bind, args>> with which this path passed the start of handler h (<<>>: not passed)
+          landed,   \* abstract states behind landing pads already scheduled (so that each is explored once)
+          seen,     \* i -> set of <<jt, env, bind, args>>: one entry per context the instruction was reached in
           viol,     \* violations found: <<kind, block, pc, info>>
-          nvis, nexc  \* counters: abstract states expanded, exceptional edges examined
-vars == <<comp, phase, todo, doneB, cur, work, exc, excSeen, seen, viol, nvis, nexc>>
+          nvis, nexc, nmrg  \* counters: abstract states expanded, exceptional edges examined, re-arrivals compared
+vars == <<comp, phase, todo, doneB, cur, tr, rg, work, landed, seen, viol, nvis, nexc, nmrg>>
 
 -----------------------------------------------------------------------------
 (* Instruction lookup.  The instruction list is sorted by pc (checked by Decodes). *)
@@ -78,9 +80,9 @@ HandlerAt(B, q) ==
 OpNames == DOMAIN OpTable
 Known(op) == op \in OpNames
 
-(* f with f[j] = v for every j in S (explicit, so that TLC keeps `seen` a table instead of a chain of lambdas). *)
-RECURSIVE Assign(_, _, _)
-Assign(f, S, v) == IF S = {} THEN f ELSE LET j == CHOOSE j \in S : TRUE IN Assign([f EXCEPT ![j] = v], S \ {j}, v)
+(* f with v added to f[j] for every j in S (explicit, so that TLC keeps `seen` a table instead of a chain of lambdas). *)
+RECURSIVE AddAll(_, _, _)
+AddAll(f, S, v) == IF S = {} THEN f ELSE LET j == CHOOSE j \in S : TRUE IN AddAll([f EXCEPT ![j] = @ \cup {v}], S \ {j}, v)
 
 -----------------------------------------------------------------------------
 (* Structural part: decoding, operand ranges, jump and handler targets.  No effect table needed. *)
@@ -146,14 +148,66 @@ StructViol(B) ==
 (* Flow part. *)
 
 IsRoot(c, b) == b = Dump[c].root
+NameOf(c, b) == Blk(c, b).name
 EntryEnv(c, b) ==
   IF IsRoot(c, b) /\ Dump[c].kind \in {"script", "module"} THEN 0
-  ELSE IF IsRoot(c, b) /\ Dump[c].kind = "late" THEN Blk(c, b).finish_env   \* eval / Function: origin unknown
-  ELSE NProlog(Blk(c, b))                                                   \* pushed by function_call/construct
+  ELSE IF IsRoot(c, b) /\ NameOf(c, b) = "<eval>" THEN 1      \* perform_eval pushes the lexical environment
+  ELSE IF IsRoot(c, b) /\ NameOf(c, b) = "<json>" THEN 0
+  ELSE NProlog(Blk(c, b))                                     \* pushed by function_call / function_construct
 RootBase(c) == CASE Dump[c].kind = "script" -> 0 [] Dump[c].kind = "module" -> 1 [] OTHER -> -1
 
 Argc(ins, row) == IF row.argc = "" THEN 0 ELSE ins.a[row.argc]
 Max0(x) == IF x < 0 THEN 0 ELSE x
+
+(***************************************************************************)
+(* Jump-table contexts.  boa compiles `finally` so that every way of       *)
+(* entering the finally block first stores a small constant in an index    *)
+(* register; the JumpTable at the end of the block dispatches on it.  A    *)
+(* `return v` inside the protected region parks v on the value stack       *)
+(* while the finally block runs, so the paths into that block differ in    *)
+(* depth exactly as they differ in the index register, and the JumpTable   *)
+(* separates them again.  The interpreter therefore carries, for the       *)
+(* registers used as a JumpTable index (`tr`), the constant last stored    *)
+(* (-1 = unknown); depths must agree per (instruction, context).  A        *)
+(* context component dies (-1) as soon as the register is consumed by its  *)
+(* JumpTable, touched by any other instruction, or control leaves the      *)
+(* finally block by another edge, so ordinary merges are compared in the   *)
+(* plain context.                                                          *)
+(***************************************************************************)
+ConstStored(ins) ==
+  CASE ins.op = "StoreZero" -> 0
+    [] ins.op = "StoreOne"  -> 1
+    [] ins.op \in {"StoreInt8", "StoreInt16", "StoreInt32"} -> (IF ins.a["value"] >= 0 THEN ins.a["value"] ELSE -1)
+    [] OTHER -> -2                                                  \* not a constant store
+Mentions(ins, row, r) ==
+  \E k \in 1..Len(row.roles) :
+     \/ row.roles[k][3] = "reg" /\ ins.a[row.roles[k][1]] = r
+     \/ row.roles[k][3] = "regs" /\ \E m \in 1..Len(ins.a[row.roles[k][1]]) : ins.a[row.roles[k][1]][m] = r
+(* Finally regions of register r: for each JumpTable on r at pc J, the interval [lo, J] where lo is the smallest
+   target of a `Jump` that directly follows a constant store to r after the previous JumpTable on r (that is how
+   every break/continue/return record enters the finally block). *)
+JumpTablesOn(B, r) == {i \in 1..Len(B.code) : B.code[i].op = "JumpTable" /\ B.code[i].a["index"] = r}
+RegionsOf(B, r) ==
+  {LET prev == {m \in JumpTablesOn(B, r) : m < j}
+       from == IF prev = {} THEN 0 ELSE CHOOSE m \in prev : \A q \in prev : q <= m
+       ents == {B.code[i + 1].a["address"] :
+                  i \in {i \in (from + 1)..(j - 2) : ConstStored(B.code[i]) # -2 /\ B.code[i].a["dst"] = r /\ B.code[i + 1].op = "Jump"}}
+   IN <<IF ents = {} THEN B.code[j].pc ELSE CHOOSE lo \in ents : \A q \in ents : lo <= q, B.code[j].pc>>
+   : j \in JumpTablesOn(B, r)}
+InRegion(R, k, pc) == \E iv \in R[k] : iv[1] <= pc /\ pc <= iv[2]
+LastTable(R, k) == IF R[k] = {} THEN -1 ELSE CHOOSE m \in {iv[2] : iv \in R[k]} : \A q \in {iv[2] : iv \in R[k]} : q <= m
+(* Context after executing `ins` (before following an edge). *)
+NextCtx(T, R, jt, ins, row) ==
+  IF Len(T) = 0 THEN jt
+  ELSE [k \in 1..Len(T) |->
+          IF ConstStored(ins) # -2 /\ ins.a["dst"] = T[k] THEN (IF ins.pc < LastTable(R, k) THEN ConstStored(ins) ELSE -1)
+          ELSE IF Mentions(ins, row, T[k]) THEN -1 ELSE jt[k]]
+(* Context after following the edge p -> t: a component is forgotten when the edge leaves its finally region
+   (break / continue / return / throw out of a finally block), so that what follows is compared in the plain context. *)
+EdgeCtx(T, R, jt, p, t) ==
+  IF Len(T) = 0 THEN jt
+  ELSE [k \in 1..Len(T) |-> IF jt[k] >= 0 /\ InRegion(R, k, p) /\ ~InRegion(R, k, t) THEN -1 ELSE jt[k]]
+TrackedIndex(T, r) == IF \E k \in 1..Len(T) : T[k] = r THEN CHOOSE k \in 1..Len(T) : T[k] = r ELSE 0
 
 (* Successor program counters on normal completion. *)
 AddrTargets(ins, row) ==
@@ -161,11 +215,14 @@ AddrTargets(ins, row) ==
          IF r[3] = "addr" THEN {ins.a[r[1]]}
          ELSE IF r[3] = "addrs" THEN {ins.a[r[1]][m] : m \in 1..Len(ins.a[r[1]])} ELSE {}
          : k \in 1..Len(row.roles)}
-NormalTargets(ins, row) ==
-  CASE row.succ = "fall"   -> {ins.nx}
-    [] row.succ = "jump"   -> AddrTargets(ins, row)
-    [] row.succ = "branch" -> {ins.nx} \cup AddrTargets(ins, row)
-    [] OTHER               -> {}
+NormalTargets(T, jt, ins, row) ==
+  IF ins.op = "JumpTable" /\ TrackedIndex(T, ins.a["index"]) # 0 /\ jt[TrackedIndex(T, ins.a["index"])] >= 0
+  THEN LET k == jt[TrackedIndex(T, ins.a["index"])] IN      \* the VM falls through when the index is outside the table
+       IF k < Len(ins.a["addresses"]) THEN {ins.a["addresses"][k + 1]} ELSE {ins.nx}
+  ELSE CASE row.succ = "fall"   -> {ins.nx}
+         [] row.succ = "jump"   -> AddrTargets(ins, row)
+         [] row.succ = "branch" -> {ins.nx} \cup AddrTargets(ins, row)
+         [] OTHER               -> {}
 
 (* What the instruction requires of the depths it is reached with. *)
 PreViol(B, base, ins, row, e, b, a) ==
@@ -173,7 +230,9 @@ PreViol(B, base, ins, row, e, b, a) ==
   (IF a < P THEN {<<"args-underflow", ins.pc, <<a, P>>>>} ELSE {})
   \cup (IF b + row.bind < 0 THEN {<<"bind-underflow", ins.pc, <<b>>>>} ELSE {})
   \cup (IF e + row.env < 0 THEN {<<"env-underflow", ins.pc, <<e>>>>} ELSE {})
-  \cup (IF row.succ = "return" /\ (b # 0 \/ a # 0) THEN {<<"return-depth", ins.pc, <<b, a>>>>} ELSE {})
+  \cup (IF row.succ = "return" /\ b # 0 THEN {<<"return-depth", ins.pc, <<b, a>>>>} ELSE {})
+  \* values left at Return are dropped with the frame (handle_return truncates): reported as information only
+  \cup (IF row.succ = "return" /\ b = 0 /\ a # 0 THEN {<<"return-leftover", ins.pc, <<a>>>>} ELSE {})
   \* a binding locator Stack(i) addresses absolute environment i: it must exist here
   \cup UNION {LET r == row.roles[k]  v == ins.a[r[1]] IN
               IF r[3] = "bind" /\ base >= 0 /\ v >= 0 /\ v < Len(B.binds) /\ B.binds[v + 1].s = "st"
@@ -185,10 +244,11 @@ PreViol(B, base, ins, row, e, b, a) ==
            /\ B.consts[ins.a["scope_index"] + 1].si # base + e + 1
         THEN {<<"scope-position", ins.pc, <<B.consts[ins.a["scope_index"] + 1].si, base + e>>>>} ELSE {})
 
-(* Arrival of depths d at instruction index j (0 = not an instruction): first arrival records, later ones must agree. *)
-MergeViol(B, sn, t, j, d, srcpc) ==
-  IF j = 0 THEN {<<"flow-target", srcpc, <<t, B.len>>>>}
-  ELSE IF sn[j] # <<>> /\ sn[j] # d THEN {<<"merge-mismatch", t, sn[j] \o d \o <<srcpc>>>>} ELSE {}
+(* An instruction is marked when its abstract state is taken from the stack; `seen` keeps, per context, the first
+   arrival <<jt, env, bind, args, source pc>>.  A later arrival in the same context must agree with it. *)
+Prior(sn, i, jt) == {y \in sn[i] : y[1] = jt}
+Disagree(B, i, prior, e, b, a, src) ==
+  {<<"merge-mismatch", B.code[i].pc, <<y[2], y[3], y[4], y[5], e, b, a, src>>>> : y \in {y \in prior : <<y[2], y[3], y[4]>> # <<e, b, a>>}}
 
 Children(B, base, ins, row, e) ==   \* GetFunction creates a closure over the current environment chain
   {<<B.consts[ins.a[r[1]] + 1].b, IF base < 0 THEN -1 ELSE base + e>> :
@@ -199,8 +259,8 @@ Init ==
   /\ comp \in 1..NComp
   /\ phase = "start"
   /\ todo = {<<Dump[comp].root, RootBase(comp)>>}
-  /\ doneB = {} /\ cur = <<0, 0>> /\ work = <<>> /\ exc = {} /\ excSeen = {} /\ seen = <<>>
-  /\ viol = {} /\ nvis = 0 /\ nexc = 0
+  /\ doneB = {} /\ cur = <<0, 0>> /\ tr = <<>> /\ rg = <<>> /\ work = <<>> /\ landed = {} /\ seen = <<>>
+  /\ viol = {} /\ nvis = 0 /\ nexc = 0 /\ nmrg = 0
 
 Tag(b, vs) == {<<v[1], b, v[2], v[3]>> : v \in vs}
 
@@ -210,114 +270,138 @@ StartBlock ==
          B == Blk(comp, p[1])
          n == Len(B.code)
          ee == EntryEnv(comp, p[1])
+         T == SetToSortSeq({B.code[i].a["index"] : i \in {i \in 1..n : B.code[i].op = "JumpTable"}}, <)
+         jt0 == [k \in 1..Len(T) |-> -1]
+         hd0 == [h \in 1..Len(B.handlers) |-> <<>>]
          gfns == {<<B.consts[B.gfn[k][2] + 1].b, IF p[2] < 0 THEN -1 ELSE p[2] + ee>> :
                     k \in {k \in 1..Len(B.gfn) : ConstKind(B, B.gfn[k][2]) = "f" /\ B.consts[B.gfn[k][2] + 1].b > 0}}
      IN /\ cur' = p
+        /\ tr' = T
+        /\ rg' = [k \in 1..Len(T) |-> RegionsOf(B, T[k])]
         /\ todo' = (todo \ {p}) \cup (gfns \ (doneB \cup {p}))
-        /\ seen' = [i \in 1..n |-> IF i = 1 THEN <<ee, 0, 0>> ELSE <<>>]
-        /\ work' = IF n = 0 THEN <<>> ELSE <<<<1, ee, 0, 0>>>>
+        /\ seen' = [i \in 1..n |-> {}]
+        /\ work' = IF n = 0 THEN <<>> ELSE <<<<1, jt0, ee, 0, 0, -1, hd0>>>>
         /\ viol' = viol \cup Tag(p[1], StructViol(B))
-                        \cup (IF B.finish_env >= 0 /\ B.finish_env # ee
-                              THEN {<<"finish-env", p[1], 0, <<B.finish_env, ee>>>>} ELSE {})
-        /\ exc' = {} /\ excSeen' = {} /\ phase' = "flow"
-        /\ UNCHANGED <<comp, doneB, nvis, nexc>>
+        /\ landed' = {} /\ phase' = "flow"
+        /\ UNCHANGED <<comp, doneB, nvis, nexc, nmrg>>
+
+(* Scheduling: the pending abstract state with the smallest total depth first, the most recently pushed among equals
+   (depth-first, fall-through before jump targets).  Order does not change what is reachable; it makes the first
+   arrival at a merge point the shallowest one, so that a path that leaks is reported once, where it joins, and the
+   leak is not propagated downstream as a chain of secondary disagreements. *)
+Key(w) == w[3] + w[4] + w[5]
+Pick(wk) == CHOOSE k \in 1..Len(wk) : \A m \in 1..Len(wk) : Key(wk[k]) < Key(wk[m]) \/ (Key(wk[k]) = Key(wk[m]) /\ k <= m)
+Without(wk, k) == SubSeq(wk, 1, k - 1) \o SubSeq(wk, k + 1, Len(wk))
+
+(***************************************************************************)
+(* Exceptional edge from `ins` (reached with jt, e, b, a) into handler h.  *)
+(* `hd[h]` = <<bind, args>> with which this path passed the handler's      *)
+(* `start` (the depths the handler was set up with).  The VM truncates the *)
+(* environment chain to handler.environment_count and restores nothing     *)
+(* else; the model requires arrival >= set-up depths, reports "more" as    *)
+(* the leftover classes and continues behind the landing pad with the      *)
+(* set-up depths.                                                          *)
+(***************************************************************************)
+EdgeViol(B, h, hd, ins, e, bx, ax) ==
+  LET H == B.handlers[h]
+      S == IF hd[h] = <<>> THEN <<bx, ax>> ELSE hd[h]
+  IN (IF hd[h] = <<>> THEN {<<"handler-start-unreached", ins.pc, <<h, H.s>>>>} ELSE {})
+     \cup (IF e < H.env THEN {<<"exc-env-underflow", ins.pc, <<h, e, H.env>>>>} ELSE {})
+     \cup (IF bx < S[1] THEN {<<"exc-bind-underflow", ins.pc, <<h, bx, S[1]>>>>} ELSE {})
+     \cup (IF ax < S[2] THEN {<<"exc-args-underflow", ins.pc, <<h, ax, S[2]>>>>} ELSE {})
+     \cup (IF bx > S[1] THEN {<<"handler-leftover-bind", ins.pc, <<h, bx, S[1]>>>>} ELSE {})
+     \cup (IF ax > S[2] THEN {<<"handler-leftover", ins.pc, <<h, ax, S[2]>>>>} ELSE {})
+Landing(B, h, hd, jt, ins, bx, ax) ==      \* abstract state behind the landing pad (0 as index: target is no instruction)
+  LET H == B.handlers[h]
+      S == IF hd[h] = <<>> THEN <<bx, ax>> ELSE hd[h]
+  IN <<IdxOf(B, H.h), EdgeCtx(tr, rg, jt, ins.pc, H.h), H.env, S[1], S[2], ins.pc, hd>>
 
 Step ==
   /\ phase = "flow" /\ work # <<>>
   /\ LET B == Blk(comp, cur[1])  base == cur[2]
-         w == Head(work)  i == w[1]  e == w[2]  b == w[3]  a == w[4]
+         pk == Pick(work)  rest == Without(work, pk)
+         w == work[pk]  i == w[1]  jt == w[2]  e == w[3]  b == w[4]  a == w[5]  src == w[6]  hd == w[7]
          ins == B.code[i]
-     IN IF ~Known(ins.op) \/ OpTable[ins.op].succ = "reserved"
-        THEN /\ work' = Tail(work) /\ nvis' = nvis + 1        \* reported by the structural part
-             /\ UNCHANGED <<comp, phase, todo, doneB, cur, exc, excSeen, seen, viol, nexc>>
+         prior == Prior(seen, i, jt)
+     IN IF prior # {}
+        THEN \* reached before in this context: the depths must agree; nothing new to explore
+             /\ work' = rest
+             /\ viol' = viol \cup Tag(cur[1], Disagree(B, i, prior, e, b, a, src))
+             /\ nmrg' = nmrg + 1
+             /\ UNCHANGED <<comp, phase, todo, doneB, cur, tr, rg, landed, seen, nvis, nexc>>
+        ELSE IF ~Known(ins.op) \/ OpTable[ins.op].succ = "reserved"
+        THEN /\ work' = rest /\ nvis' = nvis + 1        \* reported by the structural part
+             /\ seen' = [seen EXCEPT ![i] = @ \cup {<<jt, e, b, a, src>>}]
+             /\ UNCHANGED <<comp, phase, todo, doneB, cur, tr, rg, landed, viol, nexc, nmrg>>
         ELSE
         LET row == OpTable[ins.op]
             P == row.pop + Argc(ins, row)
-            d2 == <<Max0(e + row.env), Max0(b + row.bind), Max0(a - P) + row.push>>
-            ts == NormalTargets(ins, row)
-            js == {IdxOf(B, t) : t \in ts}
-            newJ == {j \in js : j # 0 /\ seen[j] = <<>>}
-            mv == UNION {MergeViol(B, seen, t, IdxOf(B, t), d2, ins.pc) : t \in ts}
+            jt2 == NextCtx(tr, rg, jt, ins, row)
+            e2 == Max0(e + row.env)  b2 == Max0(b + row.bind)  a2 == Max0(a - P) + row.push
+            \* handlers whose protected range starts here are set up with the depths of this arrival
+            starts == {h \in 1..Len(B.handlers) : B.handlers[h].s = ins.pc /\ B.handlers[h].s < B.handlers[h].e}
+            hd2 == IF starts = {} THEN hd ELSE [h \in 1..Len(B.handlers) |-> IF h \in starts THEN <<b, a>> ELSE hd[h]]
+            sv == {<<"handler-env", ins.pc, <<h, B.handlers[h].env, e>>>> : h \in {h \in starts : B.handlers[h].env # e}}
+            ts == NormalTargets(tr, jt, ins, row)
+            bad == {<<"flow-target", ins.pc, <<t, B.len>>>> : t \in {t \in ts : IdxOf(B, t) = 0}}
+            js == {IdxOf(B, t) : t \in ts} \ {0}
+            jn == IF ins.nx \in ts THEN IdxOf(B, ins.nx) ELSE 0
             \* exceptional edges: own exceptions are looked up at the last byte of the instruction,
             \* exceptions of a callee at the pc after the call (handle_error / handle_throw)
             qs == (IF row.throws THEN {ins.nx - 1} ELSE {}) \cup (IF row.calls THEN {ins.nx} ELSE {})
+            hs == {HandlerAt(B, q) : q \in qs} \ {0}
             tp == row.tpop + (IF row.targc THEN Argc(ins, row) ELSE 0)
-            edges == {<<HandlerAt(B, q), e, Max0(b + row.tb), Max0(a - tp)>> : q \in {q \in qs : HandlerAt(B, q) # 0}}
-            newE == edges \ excSeen
-        IN /\ seen' = Assign(seen, newJ, d2)
-           /\ work' = Tail(work) \o SetToSeq({<<j, d2[1], d2[2], d2[3]>> : j \in newJ})
-           /\ exc' = exc \cup {<<x[1], x[2], x[3], x[4], ins.pc>> : x \in newE}
-           /\ excSeen' = excSeen \cup newE
-           /\ viol' = viol \cup Tag(cur[1], PreViol(B, base, ins, row, e, b, a) \cup mv)
+            bx == Max0(b + row.tb)  ax == Max0(a - tp)
+            ev == UNION {EdgeViol(B, h, hd2, ins, e, bx, ax) : h \in hs}
+            lands == {Landing(B, h, hd2, jt, ins, bx, ax) : h \in hs}
+            fresh == {l \in lands : l[1] # 0 /\ <<l[1], l[2], l[3], l[4], l[5]>> \notin landed}
+        IN /\ seen' = [seen EXCEPT ![i] = @ \cup {<<jt, e, b, a, src>>}]
+           /\ work' = (IF jn \in js THEN <<<<jn, EdgeCtx(tr, rg, jt2, ins.pc, B.code[jn].pc), e2, b2, a2, ins.pc, hd2>>>> ELSE <<>>)
+                      \o SetToSeq({<<j, EdgeCtx(tr, rg, jt2, ins.pc, B.code[j].pc), e2, b2, a2, ins.pc, hd2>> : j \in js \ {jn}})
+                      \o SetToSeq(fresh) \o rest
+           /\ landed' = landed \cup {<<l[1], l[2], l[3], l[4], l[5]>> : l \in fresh}
+           /\ viol' = viol \cup Tag(cur[1], PreViol(B, base, ins, row, e, b, a) \cup bad \cup sv \cup ev)
            /\ todo' = todo \cup (Children(B, base, ins, row, e) \ (doneB \cup {cur}))
            /\ nvis' = nvis + 1
-           /\ UNCHANGED <<comp, phase, doneB, cur, nexc>>
+           /\ nexc' = nexc + Cardinality(hs)
+           /\ UNCHANGED <<comp, phase, doneB, cur, tr, rg, nmrg>>
 
-(* One exceptional edge, examined when all normal flow of the block is known. *)
-ExcStep ==
-  /\ phase = "flow" /\ work = <<>> /\ exc # {}
-  /\ LET B == Blk(comp, cur[1])
-         x == CHOOSE x \in exc : \A y \in exc : x[5] < y[5] \/ (x[5] = y[5] /\ (x[1] < y[1] \/ (x[1] = y[1] /\
-                   (x[2] < y[2] \/ (x[2] = y[2] /\ (x[3] < y[3] \/ (x[3] = y[3] /\ x[4] <= y[4])))))))
-         H == B.handlers[x[1]]
-         js == IdxOf(B, H.s)  jt == IdxOf(B, H.h)
-     IN IF js = 0 \/ jt = 0
-        THEN /\ exc' = exc \ {x} /\ nexc' = nexc + 1          \* reported by the structural part
-             /\ UNCHANGED <<comp, phase, todo, doneB, cur, work, excSeen, seen, viol, nvis>>
-        ELSE
-        LET reached == seen[js] # <<>>
-            S == IF reached THEN seen[js] ELSE <<H.env, x[3], x[4]>>     \* depths the handler was set up with
-            d == <<H.env, S[2], S[3]>>                                  \* intended depths behind the landing pad
-            v == (IF ~reached THEN {<<"handler-start-unreached", H.s, <<x[1], x[5]>>>>} ELSE {})
-                 \cup (IF reached /\ S[1] # H.env THEN {<<"handler-env", H.s, <<x[1], H.env, S[1]>>>>} ELSE {})
-                 \cup (IF x[2] < H.env THEN {<<"exc-env-underflow", x[5], <<x[1], x[2], H.env>>>>} ELSE {})
-                 \cup (IF x[3] < S[2] THEN {<<"exc-bind-underflow", x[5], <<x[1], x[3], S[2]>>>>} ELSE {})
-                 \cup (IF x[4] < S[3] THEN {<<"exc-args-underflow", x[5], <<x[1], x[4], S[3]>>>>} ELSE {})
-                 \cup (IF x[3] > S[2] THEN {<<"handler-leftover-bind", x[5], <<x[1], x[3], S[2]>>>>} ELSE {})
-                 \cup (IF x[4] > S[3] THEN {<<"handler-leftover", x[5], <<x[1], x[4], S[3]>>>>} ELSE {})
-                 \cup MergeViol(B, seen, H.h, jt, d, x[5])
-            new == seen[jt] = <<>>
-        IN /\ seen' = IF new THEN [seen EXCEPT ![jt] = d] ELSE seen
-           /\ work' = IF new THEN <<<<jt, d[1], d[2], d[3]>>>> ELSE <<>>
-           /\ exc' = exc \ {x}
-           /\ viol' = viol \cup Tag(cur[1], v)
-           /\ nexc' = nexc + 1
-           /\ UNCHANGED <<comp, phase, todo, doneB, cur, excSeen, nvis>>
-
-DepthRows(B) == [i \in 1..Len(B.code) |-> IF seen[i] = <<>> THEN <<B.code[i].pc>> ELSE <<B.code[i].pc>> \o seen[i]]
+DepthRows(B) == [i \in 1..Len(B.code) |-> <<B.code[i].pc>> \o SetToSeq({<<y[2], y[3], y[4]>> : y \in seen[i]})]
 
 FinishBlock ==
-  /\ phase = "flow" /\ work = <<>> /\ exc = {}
+  /\ phase = "flow" /\ work = <<>>
   /\ doneB' = doneB \cup {cur}
   /\ phase' = IF todo = {} THEN "done" ELSE "next"
   /\ IF EmitDepths
      THEN PrintT(<<"DEPTHS", ToJson([c |-> comp, b |-> cur[1], base |-> cur[2], id |-> Blk(comp, cur[1]).id,
                                      d |-> DepthRows(Blk(comp, cur[1]))])>>)
      ELSE TRUE
-  /\ UNCHANGED <<comp, todo, cur, work, exc, excSeen, seen, viol, nvis, nexc>>
+  /\ UNCHANGED <<comp, todo, cur, tr, rg, work, landed, seen, viol, nvis, nexc, nmrg>>
 
-Next == StartBlock \/ Step \/ ExcStep \/ FinishBlock
+Next == StartBlock \/ Step \/ FinishBlock
 Spec == Init /\ [][Next]_vars
 
 -----------------------------------------------------------------------------
 (* Invariants of the interpreter itself (model gate). *)
 TypeOK ==
   /\ phase \in {"start", "flow", "next", "done"}
-  /\ \A k \in 1..Len(work) : work[k][1] \in DOMAIN seen /\ seen[work[k][1]] = <<work[k][2], work[k][3], work[k][4]>>
-  /\ \A k \in 1..Len(work) : work[k][2] >= 0 /\ work[k][3] >= 0 /\ work[k][4] >= 0
-  /\ \A x \in exc : <<x[1], x[2], x[3], x[4]>> \in excSeen
+  /\ \A k \in 1..Len(work) :
+        /\ work[k][1] \in DOMAIN seen
+        /\ work[k][3] >= 0 /\ work[k][4] >= 0 /\ work[k][5] >= 0
+        /\ Len(work[k][2]) = Len(tr)
+        /\ Len(work[k][7]) = Len(Blk(comp, cur[1]).handlers)
   /\ todo \cap doneB = {}
 
 (* One RESULT line per compilation when its analysis is complete. *)
 Emit ==
   phase = "done" =>
-    PrintT(<<"RESULT", ToJson([c |-> comp, v |-> SetToSeq(viol), n |-> nvis, x |-> nexc, nb |-> Cardinality(doneB)])>>)
+    PrintT(<<"RESULT", ToJson([c |-> comp, v |-> SetToSeq(viol), n |-> nvis, x |-> nexc, m |-> nmrg, nb |-> Cardinality(doneB)])>>)
 
 (* The engine's instruction set must be the one OpTable describes (else the table has to be extended: exit 2). *)
 SigRows == {EngineSig[k] : k \in 1..Len(EngineSig)}
 SigMismatch ==
   {s.op : s \in {s \in SigRows :
-             ~(s.op \in DOMAIN OpTable
+             ~(s.op \in OpNames
                /\ Len(s.fields) = Len(OpTable[s.op].roles)
                /\ \A m \in 1..Len(s.fields) : s.fields[m][1] = OpTable[s.op].roles[m][1]
                                              /\ s.fields[m][2] = OpTable[s.op].roles[m][2])}}
@@ -325,6 +409,6 @@ SigMismatch ==
 SigReport == PrintT(<<"SIG", ToJson([bad |-> SetToSeq(SigMismatch), n |-> Len(EngineSig)])>>)
 ASSUME SigReport
 
-(* Strict reading for replays: stop at the first violation that is not the known leftover class. *)
-Clean == \A v \in viol : v[1] \in {"handler-leftover", "handler-leftover-bind"}
+(* Strict reading for replays: stop at the first violation that is not one of the known leftover classes. *)
+Clean == \A v \in viol : v[1] \in {"handler-leftover", "handler-leftover-bind", "return-leftover"}
 =============================================================================
